@@ -167,16 +167,17 @@ def run(ctx):
 
     sites = 0
     for f in ctx.repo.all_funcs("param.parameterized"):
-        has = any(isinstance(c, ast.Call) and norm(c.func) == "type.__setattr__" for c in ast.walk(f.node))
+        has = any(isinstance(c, ast.Call) and norm(c.func) in ("type.__setattr__", "type.__delattr__") for c in ast.walk(f.node))
         if not has:
             continue
         cfg = ctx.facts.cfg(f)
         for w in cfg.live_nodes():
-            wcalls = [c for c in calls_in(w) if norm(c.func) == "type.__setattr__" and len(c.args) == 3]
+            wcalls = [c for c in calls_in(w) if (norm(c.func) == "type.__setattr__" and len(c.args) == 3) or (norm(c.func) == "type.__delattr__" and len(c.args) == 2)]
             if not wcalls:
                 continue
             c = wcalls[0]
-            vname = norm(c.args[2])
+            # a removal from the class namespace changes what attribute lookup finds just like an installation does
+            vname = norm(c.args[2]) if len(c.args) == 3 else "<the Parameter removed>"
             sites += 1
             inval = {n.id: node_invalidation(ctx, f, n) for n in cfg.live_nodes()}
 
